@@ -210,7 +210,7 @@ def std_e2(ctx, module, consts, tag, pspec, wname, tspec=None, tconsts=None, pai
         args += ["--mout", mm, "--pairs", str(pairs), "--pair-op", pair_op]
     stats = vlib.vh(args, w)
     os.remove(gen)
-    if stats.get("missing"):
+    if stats.get("missing") and not stats.get("panics"):
         raise ToolError("replay could not reach %d emitted transitions" % stats["missing"])
     ctx.e2_transitions += stats["transitions"] + stats["pairs"]
     ctx.executed += stats["executed"] + stats["alt_executed"] + stats["pairs"]
@@ -277,7 +277,7 @@ def qf_e2(ctx, shapes, pairs, reps=2, max_alt=200, gen_workers=1):
         stats = vlib.vh(["replay", "qf", "--gen", gen, "--out", p, "--hist", h, "--mout", m, "--reps", str(reps),
                          "--max-alt", str(max_alt), "--pairs", str(pairs), "--pair-op", "union", "--seed", str(ctx.seed)], w)
         os.remove(gen)
-        if stats.get("missing"):
+        if stats.get("missing") and not stats.get("panics"):
             raise ToolError("replay could not reach %d emitted transitions (pre-state never materialised)" % stats["missing"])
         ctx.e2_transitions += stats["transitions"] + stats["pairs"]
         ctx.executed += stats["executed"] + stats["alt_executed"] + stats["pairs"]
@@ -339,7 +339,7 @@ def ck_e2(ctx, shapes, pairs, reps=2, max_alt=150):
         stats = vlib.vh(["replay", "ck", "--gen", gen, "--out", pf, "--hist", h, "--mout", m, "--reps", str(reps),
                          "--max-alt", str(max_alt), "--pairs", str(pairs), "--pair-op", "union", "--seed", str(ctx.seed)], w)
         os.remove(gen)
-        if stats.get("missing"):
+        if stats.get("missing") and not stats.get("panics"):
             raise ToolError("replay could not reach %d emitted transitions" % stats["missing"])
         ctx.e2_transitions += stats["transitions"] + stats["pairs"]
         ctx.executed += stats["executed"] + stats["alt_executed"] + stats["pairs"]
@@ -408,7 +408,7 @@ def bl_e2(ctx, shapes, n_fs, pairs, reps=2):
             stats = vlib.vh(["replay", "bl", "--gen", gen, "--out", pf, "--hist", h, "--mout", mm, "--reps", str(reps), "--max-alt", "50",
                              "--pairs", str(pairs), "--pair-op", "union", "--seed", str(ctx.seed)], w)
             os.remove(gen)
-            if stats.get("missing"):
+            if stats.get("missing") and not stats.get("panics"):
                 raise ToolError("replay could not reach %d emitted transitions" % stats["missing"])
             ctx.e2_transitions += stats["transitions"] + stats["pairs"]
             ctx.executed += stats["executed"] + stats["alt_executed"] + stats["pairs"]
@@ -500,7 +500,7 @@ def cms_e2(ctx, shapes, n_fs, pairs, types, reps=1):
                 stats = vlib.vh(["replay", tag, "--gen", gen, "--out", pf, "--hist", h, "--mout", mm, "--reps", str(reps), "--max-alt", "20",
                                  "--pairs", str(pairs), "--pair-op", "merge", "--seed", str(ctx.seed)], wd)
                 os.remove(gen)
-                if stats.get("missing"):
+                if stats.get("missing") and not stats.get("panics"):
                     raise ToolError("replay could not reach %d emitted transitions" % stats["missing"])
                 ctx.e2_transitions += stats["transitions"] + stats["pairs"]
                 ctx.executed += stats["executed"] + stats["alt_executed"] + stats["pairs"]
@@ -567,7 +567,7 @@ def hll_e2(ctx, shapes, pairs):
         stats = vlib.vh(["replay", "hll", "--gen", gen, "--out", pf, "--hist", h, "--mout", mm, "--reps", "2", "--max-alt", "50",
                          "--pairs", str(pairs), "--pair-op", "merge", "--seed", str(ctx.seed)], w)
         os.remove(gen)
-        if stats.get("missing"):
+        if stats.get("missing") and not stats.get("panics"):
             raise ToolError("replay could not reach %d emitted transitions" % stats["missing"])
         ctx.e2_transitions += stats["transitions"] + stats["pairs"]
         ctx.executed += stats["executed"] + stats["alt_executed"] + stats["pairs"]
@@ -703,6 +703,24 @@ def apalache_inductive(ctx, module, indinv, prop):
         ctx.notes.append("Apalache inductive check for %s not fully discharged (extra, not a verdict): %s" % (module, res))
 
 
+# CMSHeap
+def run_heap(ctx):
+    wd = ctx.sub("heap_learn")
+    shapes = [(1, 1, 1, 3, 5), (2, 2, 1, 3, 5), (2, 2, 2, 3, 5)] if ctx.quick else [(1, 1, 1, 3, 6), (2, 2, 1, 4, 6), (2, 2, 2, 4, 6), (3, 2, 2, 4, 7), (2, 3, 2, 3, 6)]
+    for (k, w, d, ne, nmax) in shapes:
+        fs = vlib.vh(["learn", "heap", "--w", str(w), "--d", str(d)], wd)["fs"][0]
+        code = sum((x % w) * (w ** i) for i, x in enumerate(fs))
+        c = {"K": k, "W": w, "Dd": d, "NE": ne, "NMax": nmax, "FSCODE": code, "EMIT": "FALSE"}
+        ctx.e1.append(vlib.model_check("MC_CMSHeap", c, ["Shape", "TopK"], ctx.sub("e1")))
+        c["EMIT"] = "TRUE"
+        if ctx.quick:
+            c["NMax"] = nmax - 1
+        std_e2(ctx, "MC_CMSHeap", c, "heap", "P_CMSHeap", "heap_%d_%d_%d" % (k, w, d), reps=1, max_alt=40, sample='"displaces-minimum"',
+               label={"structure": "CMSHeap", "k": k, "w": w, "d": d, "elements": ne, "max_stream": c["NMax"]})
+    std_e3(ctx, "heap", "P_CMSHeap", "heap_e3", drive_args=["--scenarios", "40" if ctx.quick else "600", "--max-n", "300" if ctx.quick else "3000"],
+           sample='"ok"')
+
+
 def handle_hang(ctx, stats, records, tag, pspec, hist=None):
     for h in stats.get("hang", []):
         ctx.rejects.append({"tid": h.get("tid", 0), "clause": PROPS[ctx.pid].get("hang_clause", ctx.pid + ".total: a call did not return (hang)"),
@@ -754,6 +772,11 @@ PROPS = {
                     "E3: streams to 4*10^4 with widths to 500, epsilons 3/10, 1/3, 2/7 ..., boundary-straddling adversarial streams, recorded at window boundaries +-1 and every 97th prefix; "
                     "non-trivial = tagged (window-end prune removes entries, element re-enters after being pruned, boundary that keeps everything)",
             "assumptions": ["TLC and the TLA+ P-spec P_Lossy judge every executed call", "thresholds are taken on twelfths and epsilons on small rationals so that float ties are exact ties"]},
+    "C10": {"run": run_heap, "level": "model_checking",
+            "rule": "E1: every assignment of base hashes to 3-4 elements under the sketch's real shift vector, every stream up to the listed length, k in 1..3, sketches 1x1..2x2; "
+                    "E2: every transition replayed in a debug build (keys found by search against the SipHash-fixed sketch, ordered like the model's elements); E3: k to 20, sketches 1x1 to 272x3; "
+                    "non-trivial = tagged (newcomer displaces the minimum, newcomer rejected, first-seen element over-estimated by collisions, re-keying of a stored element)",
+            "assumptions": ["TLC and the TLA+ P-spec P_CMSHeap judge every executed call", "E (largest sketch overestimate) is read from the embedded sketch through a read-only hook"]},
     "C12": {"run": lambda ctx: (run_ck(ctx), run_C13(ctx)), "level": "model_checking", "rule": CK_RULE + "; quotient filter as C13", "assumptions": CK_ASSUME},
     "C13": {"run": run_C13, "level": "model_checking",
             "rule": "E1: every reachable state of the quotient-filter M-spec for the listed (q,r); E2: every emitted transition executed "
